@@ -50,7 +50,9 @@ W(s) == TLCEval([i \in 1..32 |-> IF i <= 32 - Len(s) THEN 0 ELSE s[i - (32 - Len
 ToStorage(arr) == LET ks == {W(arr[i][1]) : i \in 1..Len(arr)} IN
                   [k \in ks |-> W(arr[(CHOOSE j \in 1..Len(arr) : W(arr[j][1]) = k)][2])]
 
-Viol(prop, name, e, a, b) == PrintT(<<"VIOL", prop, name, l, "-", e.ev, a, b>>)
+\* Keep the printed tuple short: TLC wraps values longer than 80 columns over several lines and the
+\* checker reads VIOL lines one per line.  `a` must be a short scalar (never a message string).
+Viol(prop, name, e, a, b) == PrintT(<<"VIOL", prop, name, l, "-", a>>)
 \* IF, not a disjunction: TLC explores every disjunct of an action (and would print regardless)
 Chk(cond, prop, name, e, a, b) == IF cond THEN TRUE ELSE Viol(prop, name, e, a, b)
 
@@ -135,7 +137,7 @@ EndAgrees(e, h) ==
        /\ Chk(e.stok, "C17", "StorageApi", e, "-", "-")
 
 TEnd(e, h) ==
-  /\ Chk(~e.panicked /\ e.class # "panic", "C18", "NoPanic", e, e.class, e.msg)
+  /\ Chk(~e.panicked /\ e.class # "panic", "C18", "NoPanic", e, e.code, "-")
   /\ Chk(\/ e.class \in {"undeployable", "uncreated"}
          \/ e.class \in AllowedClasses
          \/ (h.kind = "init" /\ e.class = "illegal_argument")
